@@ -235,7 +235,7 @@ class Lib:
         '''Bind comprehension variables.  Symbolic iterables give (bound vars, domain, scope);
         concrete ones give (None, None, [scopes])'''
         bound, doms = [], []
-        sc = Scope(scope)
+        sc = Scope(scope, bound=True)
         concrete_scopes = None
         for g in generators:
             if g.is_async:
@@ -246,7 +246,7 @@ class Lib:
                 bases = concrete_scopes if concrete_scopes is not None else [sc]
                 for base in bases:
                     for x in it:
-                        s2 = Scope(base)
+                        s2 = Scope(base, bound=True)
                         I.assign(g.target, x, s2)
                         ok = True
                         for cond in g.ifs:
@@ -260,6 +260,8 @@ class Lib:
                 concrete_scopes = scopes
                 continue
             if concrete_scopes is not None:
+                if not concrete_scopes:
+                    return None, None, []       # an outer concrete iterable is empty: no instance at all
                 raise Undecided('mixed concrete/symbolic comprehension')
             var, dom = self.iter_domain(I, it, g.target, sc)
             bound.extend(var)
@@ -859,6 +861,13 @@ class Lib:
         if isinstance(recv, SArr):
             return self.arr_method(I, recv, name, args, kwargs)
         if isinstance(recv, SV):
+            if recv.typ.kind == 'Ref':
+                f = getattr(self.world, 'ref_methods', {}).get((recv.typ.args[0], name))
+                if f is not None:
+                    return f(I, recv, *args, **kwargs)
+            if recv.typ.kind == 'Opt':
+                I.require(z3.Not(opt_is_none(recv)), 'AttributeError', 'None.' + name)
+                return self.method(I, opt_get(recv), name, args, kwargs, node)
             m = getattr(self, f'm_{recv.typ.kind}_{name}', None)
             if m is not None:
                 return m(I, recv, *args, **kwargs)
@@ -934,6 +943,68 @@ class Lib:
             return None
         raise Undecided(f'set.{name}')
 
+    def narrow(self, I, v, et):
+        '''value stored into a container of element type et; an Opt[et] value is accepted only
+        when the path condition excludes None (else the element type of the sort map is wrong)'''
+        v = v if isinstance(v, SV) else lift(v, et)
+        if v.typ.kind == 'Opt' and v.typ.args[0] == et and et.kind != 'Opt':
+            if I.path.feasible(opt_is_none(v)):
+                raise Undecided('possibly-None value stored in a container whose sort map says non-optional elements')
+            return opt_get(v)
+        return coerce(v, et)
+
+    def mutate(self, I, recv, name, args):
+        '''mutating method on a value-semantics container: returns (new container, result)'''
+        k = recv.typ.kind
+        if k == 'Seq':
+            et = recv.typ.args[0]
+            n = seq_len(recv)
+            if name == 'append':
+                v = self.narrow(I, args[0], et)
+                return seq_mk(recv.typ, z3.Store(seq_arr(recv), n, v.t), n + 1), None
+            if name == 'extend' and isinstance(args[0], SV) and args[0].typ == recv.typ:
+                return self.seq_concat(I, recv, args[0]), None
+            if name == 'extend' and isinstance(args[0], (list, tuple)):
+                cur = recv
+                for x in args[0]:
+                    cur, _ = self.mutate(I, cur, 'append', [x])
+                return cur, None
+            if name == 'pop' and not args:
+                I.require(n > 0, 'IndexError', 'pop from empty list')
+                return seq_mk(recv.typ, seq_arr(recv), n - 1), SV(et, seq_arr(recv)[n - 1])
+        if k == 'Set':
+            et = recv.typ.args[0]
+            if name in ('add', 'discard', 'remove'):
+                v = coerce(args[0] if isinstance(args[0], SV) else lift(args[0], et), et)
+                if name == 'remove':
+                    I.require(recv.t[v.t], 'KeyError', 'set.remove of a missing element')
+                return SV(recv.typ, z3.Store(recv.t, v.t, name == 'add')), None
+            if name == 'clear':
+                return set_empty(recv.typ), None
+            if name in ('update', 'intersection_update', 'difference_update') and isinstance(args[0], SV) and args[0].typ == recv.typ:
+                op = {'update': ast.BitOr(), 'intersection_update': ast.BitAnd(), 'difference_update': ast.Sub()}[name]
+                return self.set_binop(I, op, recv, args[0]), None
+        if k == 'Map':
+            kt, vt = recv.typ.args
+            if name == 'pop':
+                key = coerce(args[0] if isinstance(args[0], SV) else lift(args[0], kt), kt)
+                present = map_dom(recv)[key.t]
+                if len(args) == 1:
+                    I.require(present, 'KeyError', 'dict.pop of a missing key')
+                    res = SV(vt, map_val(recv)[key.t])
+                else:
+                    res = I.merge(present, SV(vt, map_val(recv)[key.t]), args[1])
+                return map_mk(recv.typ, z3.Store(map_dom(recv), key.t, False), map_val(recv)), res
+            if name == 'setdefault':
+                key = coerce(args[0] if isinstance(args[0], SV) else lift(args[0], kt), kt)
+                dflt = coerce(args[1] if isinstance(args[1], SV) else lift(args[1], vt), vt)
+                present = map_dom(recv)[key.t]
+                val = z3.If(present, map_val(recv)[key.t], dflt.t)
+                return map_mk(recv.typ, z3.Store(map_dom(recv), key.t, True), z3.Store(map_val(recv), key.t, val)), SV(vt, val)
+            if name == 'clear':
+                return map_mk(recv.typ, z3.K(zsort(kt), z3.BoolVal(False)), map_val(recv)), None
+        raise Undecided(f'mutating method {name} on {recv.typ}')
+
     # Seq methods (value semantics: the engine writes back through method_mut)
     def m_Map_items(self, I, m):
         return SMapItems(m, 'items')
@@ -1006,6 +1077,112 @@ class Lib:
         for inv in spec.invariant:
             I.path.assume(I.spec(inv, scope))
 
+    def _loop_writes(self, st):
+        '''names / one-level paths the loop body may write (syntactic over-approximation)'''
+        from .engine import MUTATORS
+        names, paths = set(), set()
+        self._mutated_only = set()
+
+        def base(n):
+            while isinstance(n, ast.Subscript):
+                n = n.value
+            return n
+
+        def note(n, mutation=False):
+            mutation = mutation or isinstance(n, ast.Subscript)
+            n = base(n)
+            if isinstance(n, ast.Name):
+                if mutation and n.id not in names:
+                    self._mutated_only.add(n.id)
+                else:
+                    self._mutated_only.discard(n.id)
+                names.add(n.id)
+            elif isinstance(n, ast.Attribute) and isinstance(base(n.value), ast.Name):
+                paths.add(f'{base(n.value).id}.{n.attr}')
+            elif isinstance(n, (ast.Tuple, ast.List)):
+                for e in n.elts:
+                    note(e)
+            else:
+                paths.add('?')
+        for sub in st.body + st.orelse:
+            for n in ast.walk(sub):
+                if isinstance(n, (ast.Assign,)):
+                    for t in n.targets:
+                        note(t)
+                elif isinstance(n, (ast.AugAssign, ast.AnnAssign)):
+                    note(n.target)
+                elif isinstance(n, (ast.For, ast.comprehension)):
+                    if isinstance(n, ast.For):
+                        note(n.target)
+                elif isinstance(n, ast.Delete):
+                    for t in n.targets:
+                        note(t)
+                elif isinstance(n, ast.Call) and isinstance(n.func, ast.Attribute) and n.func.attr in MUTATORS:
+                    note(n.func.value, mutation=True)
+                elif isinstance(n, ast.With):
+                    for it in n.items:
+                        if it.optional_vars is not None:
+                            note(it.optional_vars)
+                elif isinstance(n, ast.ExceptHandler) and n.name:
+                    names.add(n.name)
+                elif isinstance(n, (ast.FunctionDef,)):
+                    names.add(n.name)
+        return names, paths
+
+    def _check_loop_frame(self, I, st, spec, scope):
+        '''soundness of the loop rule: everything the body may write is havocked (spec.vars), is the loop
+        target, or is a body-local temporary that is made unreadable after the loop'''
+        names, paths = self._loop_writes(st)
+        tnames, _ = set(), None
+        tgt = st.target if isinstance(st, ast.For) else None
+        if tgt is not None:
+            for n in ast.walk(tgt):
+                if isinstance(n, ast.Name):
+                    tnames.add(n.id)
+        declared = set(spec.vars)
+        if '?' in paths:
+            raise Undecided('loop body writes through a target the frame analysis cannot name')
+        for p in paths:
+            if p not in declared and not getattr(spec, 'trusted_paths', None):
+                raise Undecided(f'loop body may write {p}, which the loop contract does not havoc')
+        temps = set()
+        for n in names:
+            if n in declared or n in tnames:
+                continue
+            v = None
+            try:
+                v = scope.lookup(n)
+            except KeyError:
+                temps.add(n)
+                continue
+            if n in self._mutated_only and isinstance(v, SObj):
+                continue      # item store / mutator call on a heap object: covered by the dynamic heap-frame check
+            # a live variable written by the body but not havocked: unsound to keep its entry value
+            raise Undecided(f'loop body assigns {n}, which the loop contract does not havoc')
+        return temps | tnames
+
+    def _heap_frame_check(self, I, spec, scope, before):
+        '''dynamic part of the loop frame: a heap field changed by this step path must be havocked'''
+        allowed = set()
+        for name in spec.vars:
+            if '.' in name:
+                objname, field = name.split('.', 1)
+                try:
+                    obj = scope.lookup(objname)
+                except KeyError:
+                    continue
+                if isinstance(obj, SObj):
+                    allowed.add((obj.oid, field))
+        for oid, o in before.items():
+            cur = I.heap.get(oid)
+            if cur is None:
+                continue
+            for f, v0 in o['fields'].items():
+                v1 = cur['fields'].get(f)
+                same = (v0 is v1) or (isinstance(v0, SV) and isinstance(v1, SV) and v0.t.eq(v1.t))
+                if not same and (oid, f) not in allowed:
+                    raise Undecided(f'loop body writes field {f} of {o["cls"]}#{oid}, which the loop contract does not havoc')
+
     def _havoc(self, I, spec, scope):
         for name, typ in spec.vars.items():
             if '.' in name:
@@ -1022,6 +1199,7 @@ class Lib:
         label = str(ordinal)
         g = spec.ghost
         ordered = True
+        dead_after = self._check_loop_frame(I, st, spec, scope)
         # ghost domain
         if isinstance(it, SV) and it.typ.kind == 'Set':
             ordered = False
@@ -1073,22 +1251,30 @@ class Lib:
                 for name, val in sc.vars.items():
                     scope.set(name, _subst(val, var[0], k.t))
                 nxt = SV(INT, k.t + 1)
+            before = I.snapshot_heap()
             try:
                 I.exec_block(st.body, scope)
             except _Continue:
                 pass
             except _Break:
                 return
+            self._heap_frame_check(I, spec, scope, before)
             scope.set(g, nxt)
             self._check_invs(I, spec, scope, label, 'inv-step')
+            if 'step-end' in I.hooks:
+                I.hooks['step-end'](I, scope, ordinal)
             raise PathEnd('inv-step')
         # exit
         scope.set(g, full if not ordered else SV(INT, n))
         self._assume_invs(I, spec, scope)
+        for name in dead_after:
+            scope.vars.pop(name, None)
+            scope.set(name, DeadAfterLoop(name))
         I.exec_block(st.orelse, scope)
 
     def loop_while(self, I, st, scope, ordinal, spec):
         label = str(ordinal)
+        dead_after = self._check_loop_frame(I, st, spec, scope)
         self._check_invs(I, spec, scope, label, 'inv-init')
         choice = I.path.choose(2, 'loop')
         self._havoc(I, spec, scope)
@@ -1096,16 +1282,23 @@ class Lib:
         if choice == 0:
             if not I.decide(I.eval(st.test, scope)):
                 raise PathEnd('loop exit handled by the other branch')
+            before = I.snapshot_heap()
             try:
                 I.exec_block(st.body, scope)
             except _Continue:
                 pass
             except _Break:
                 return
+            self._heap_frame_check(I, spec, scope, before)
             self._check_invs(I, spec, scope, label, 'inv-step')
+            if 'step-end' in I.hooks:
+                I.hooks['step-end'](I, scope, ordinal)
             raise PathEnd('inv-step')
         if I.decide(I.eval(st.test, scope)):
             raise PathEnd('loop continues')
+        for name in dead_after:
+            scope.vars.pop(name, None)
+            scope.set(name, DeadAfterLoop(name))
         I.exec_block(st.orelse, scope)
 
     # ------------------------------------------------------------------ numpy arrays (see libnumpy)
@@ -1117,6 +1310,12 @@ class Lib:
         e = a.elem(i)
         typ = {'num': NUM, 'bool': BOOL, 'int': INT}[a.dtype]
         return SV(typ, e)
+
+
+class DeadAfterLoop:
+    '''a loop-local temporary / loop target: its value after the loop is not tracked'''
+    def __init__(self, name):
+        self.name = name
 
 
 class SRange:
